@@ -330,3 +330,122 @@ func (p *Prog) unguardedPath(fi *FuncInfo, n ast.Node, req []*Term) string {
 	}
 	return fmt.Sprintf("entry %s -> … -> %s (a path on which the guard is not established; shortest path shown: %s)", p.Pos(fi.Node), p.Pos(n), c.DescribePath(res.Path))
 }
+
+// incBy1 recognises the statement forms that add exactly one to an lvalue:
+// x++, x += 1, x = x + 1, x = 1 + x. It returns the lvalue.
+func (p *Prog) incBy1(n ast.Node) (ast.Expr, bool) {
+	switch x := n.(type) {
+	case *ast.IncDecStmt:
+		if x.Tok == token.INC {
+			return x.X, true
+		}
+	case *ast.AssignStmt:
+		if len(x.Lhs) != 1 || len(x.Rhs) != 1 {
+			return nil, false
+		}
+		switch x.Tok {
+		case token.ADD_ASSIGN:
+			if v, ok := p.constVal(x.Rhs[0]); ok && v == 1 {
+				return x.Lhs[0], true
+			}
+		case token.ASSIGN:
+			l := Lin(p.Term(x.Rhs[0]))
+			if l.C == 1 && len(l.Coef) == 1 {
+				for k, cf := range l.Coef {
+					if cf == 1 && l.Atoms[k].Key() == p.Term(x.Lhs[0]).Key() {
+						return x.Lhs[0], true
+					}
+				}
+			}
+		}
+	}
+	return nil, false
+}
+
+// resolveSingleDefs substitutes locals of fi that are assigned exactly once
+// (x := e) by e, so that a test written through a temporary (n := len(ch);
+// n < cap(ch)) is compared in the same form as the direct one.
+func (p *Prog) resolveSingleDefs(fi *FuncInfo, t *Term) *Term {
+	for depth := 0; depth < 3; depth++ {
+		m := map[types.Object]*Term{}
+		t.Walk(func(x *Term) {
+			if x.Op != "var" {
+				return
+			}
+			v, ok := x.Obj.(*types.Var)
+			if !ok || v.IsField() || v.Parent() == nil || v.Parent() == p.Types.Scope() {
+				return
+			}
+			as := p.Assignments(rootFuncInfo(fi), v)
+			if len(as) != 1 || as[0].Rhs == nil || as[0].Tok != token.DEFINE {
+				return
+			}
+			m[v] = p.Term(as[0].Rhs)
+		})
+		if len(m) == 0 {
+			return t
+		}
+		t = normTerm(t.Subst(m))
+	}
+	return t
+}
+
+// roomTest: a is (after resolving temporaries) len(ch) < cap(ch) or len(ch) < c with c <= limit, ch the channel field f.
+func (p *Prog) roomTest(fi *FuncInfo, a *Term, f *types.Var, limit int64) bool {
+	a = p.resolveSingleDefs(fi, a)
+	if a.Op != "<" || a.Args[0].Op != "len" || !termHasField(a.Args[0], f) {
+		return false
+	}
+	if a.Args[1].Op == "cap" && termHasField(a.Args[1], f) {
+		return true
+	}
+	return a.Args[1].IsConst() && a.Args[1].Int <= limit
+}
+
+// nonNegCounter: the local v only ever receives non-negative constants and
+// positive constant increments (k := 0; k++), so 0 <= v at every use.
+func (p *Prog) nonNegCounter(fi *FuncInfo, v *types.Var) bool {
+	if v == nil || v.IsField() || p.addrTaken(v) {
+		return false
+	}
+	as := p.Assignments(rootFuncInfo(fi), v)
+	if len(as) == 0 {
+		return false
+	}
+	for _, a := range as {
+		if _, ok := p.incBy1(a.Node); ok {
+			continue
+		}
+		if a.Rhs == nil {
+			return false
+		}
+		c, isC := p.constVal(a.Rhs)
+		if !isC || c < 0 {
+			return false
+		}
+		if a.Tok != token.DEFINE && a.Tok != token.ASSIGN && a.Tok != token.ADD_ASSIGN {
+			return false
+		}
+	}
+	return true
+}
+
+// runningMax: the assignment `lhs = rhs` at node keeps lhs the running maximum of
+// some quantity X: rhs is max(lhs, X) (either order), or rhs is X under the
+// dominating fact lhs < X. It returns X (definitions resolved).
+func (p *Prog) runningMax(fi *FuncInfo, node ast.Node, lhs *Term, rhs ast.Expr) (*Term, bool) {
+	fs := p.FactsOf(rootFuncInfo(fi)).AtNode(node)
+	t := p.Term(rhs)
+	if t.Op == "max" && len(t.Args) == 2 {
+		for i := 0; i < 2; i++ {
+			if t.Args[i].Key() == lhs.Key() {
+				return fs.Resolve(t.Args[1-i]), true
+			}
+		}
+		return nil, false
+	}
+	if fs.Holds(lt(lhs, t)) || fs.Holds(lt(lhs, fs.Resolve(t))) || fs.Holds(lt(lhs, p.ExpandHelpers(t))) || fs.Holds(lt(lhs, p.ExpandHelpers(fs.Resolve(t)))) {
+		return fs.Resolve(t), true
+	}
+	return nil, false
+}
